@@ -29,7 +29,7 @@ def describe(rep):
     rep.func(filter_stats, sort_stats, get_sorted, get_list_of_types, Hooks.add_to_stats, Hooks.increment_stats, DefaultHooks.post_step,
              LogWork.post_step, LogSDCIterations.post_step, LogSolution.post_step, LogRestarts.post_step, LogStepSize.post_step)
     from pySDC.core.controller import Controller
-    from pySDC.implementations.hooks.log_errors import LogGlobalErrorPostStep, LogLocalErrorPostStep
+    from pySDC.implementations.hooks.log_errors import LogGlobalErrorPostStep, LogLocalErrorPostStep, LogGlobalErrorPostIter
     from pySDC.implementations.hooks.log_embedded_error_estimate import LogEmbeddedErrorEstimate
 
     rep.func(Controller.add_hook, Controller.return_stats, LogGlobalErrorPostStep.post_step, LogLocalErrorPostStep.post_step, LogEmbeddedErrorEstimate.post_step)
@@ -376,7 +376,7 @@ class SetEst(Hooks):
 
 def hist_case(rep, NP, MAXR, NSTEPS, FIRST, CRASH, prefix, shrink=False):
     from harness import c09
-    from pySDC.implementations.hooks.log_errors import LogGlobalErrorPostStep, LogLocalErrorPostStep
+    from pySDC.implementations.hooks.log_errors import LogGlobalErrorPostStep, LogLocalErrorPostStep, LogGlobalErrorPostIter
     from pySDC.implementations.hooks.log_embedded_error_estimate import LogEmbeddedErrorEstimate, LogEmbeddedErrorEstimatePostIter
     from pySDC.implementations.hooks.log_work import LogWork, LogSDCIterations
     from pySDC.implementations.hooks.log_solution import LogSolution
@@ -413,7 +413,7 @@ def hist_case(rep, NP, MAXR, NSTEPS, FIRST, CRASH, prefix, shrink=False):
         CALLS.clear()
         CALLS.update({'add': [], 'iters': {}, 'work': {}, 'post': [], 'attempt': 0})
         r = c09.hist_run(c, NP, MAXR, NSTEPS, FIRST, CRASH, extra_hooks=[SetEst, LogEmbeddedErrorEstimatePostIter, LogWork, LogSDCIterations, LogSolution, LogStepSize, LogGlobalErrorPostStep,
-                                                                           LogLocalErrorPostStep, LogEmbeddedErrorEstimate, Count], shrink=shrink)
+                                                                           LogLocalErrorPostStep, LogEmbeddedErrorEstimate, LogGlobalErrorPostIter, Count], shrink=shrink)
         bad = []
         if r['status'] == 'ok':
             bad = judge_stats(r, NP)
@@ -485,6 +485,21 @@ def judge_stats(r, NP):
                 bad.append(('work-counter', {'time': k.time, 'logged_solver_calls': v, 'solver_calls_made': solves}))
             if typ == 'restart' and v != 0:
                 bad.append(('accepted-step-flagged-restart', {'time': k.time}))
+    # quantities recorded after every iteration: one surviving record per accepted step AND iteration, keyed with the step's restart count
+    iter_start = ['residual_post_iteration']
+    iter_end = ['e_global_post_iteration', 'error_embedded_estimate_post_iteration']
+    for typ in iter_start + iter_end:
+        recs = filter_stats(st, type=typ, recomputed=False)
+        end = typ in iter_end
+        got = sorted((round(float(k.time), 9), int(k.iter)) for k in recs)
+        exp = sorted((round(x[1] + (x[6] if end else 0.0), 9), it) for x in posts for it in range(1, x[3] + 1))
+        if got != exp:
+            bad.append(('one-record-per-accepted-step', {'type': typ, 'records (time, iter)': got, 'accepted (time, iter)': exp}))
+            continue
+        for k in recs:
+            a = [x for x in posts if round(x[1] + (x[6] if end else 0.0), 9) == round(float(k.time), 9)]
+            if len(a) == 1 and k.num_restarts != a[0][5]:
+                bad.append(('restart-count-key', {'type': typ, 'time': k.time, 'iter': k.iter, 'key': k.num_restarts, 'step': a[0][5]}))
     # no silent key collisions: two add_to_stats calls from different attempts must not hit the same key
     seen = {}
     for (hook, typ, tm, lvl, it, nr, att, proc, swp, psw) in CALLS['add']:
